@@ -146,13 +146,22 @@ def finite_difference(blk: Module, fromsig: Union[Signal, Iterable[Signal]] = No
         # Get input state
         x = Sin.state
 
-        try:
-            # Get iterator for x
-            it = np.nditer(x, flags=['c_index', 'multi_index'], op_flags=['readwrite'])
+        sp_index = None
+        if issparse(x) and hasattr(x, 'data') and x.format in ('csr', 'csc', 'coo'):
+            # Sparse matrix: perturb the stored values in place (the sparsity structure is kept);
+            # (row, col) of the k-th stored value, in the order of x.data
+            coo = x.tocoo()
+            sp_index = (coo.row, coo.col)
+            it = np.nditer(x.data, flags=['c_index', 'multi_index'], op_flags=['readwrite'])
             is_iterable = True
-        except TypeError:
-            it = np.nditer(np.array(x), flags=['c_index', 'multi_index'], op_flags=['readwrite'])
-            is_iterable = False
+        else:
+            try:
+                # Get iterator for x
+                it = np.nditer(x, flags=['c_index', 'multi_index'], op_flags=['readwrite'])
+                is_iterable = True
+            except TypeError:
+                it = np.nditer(np.array(x), flags=['c_index', 'multi_index'], op_flags=['readwrite'])
+                is_iterable = False
 
         i_failed, i_tested = 0, 0
         # Loop over all values in x
@@ -192,7 +201,9 @@ def finite_difference(blk: Module, fromsig: Union[Signal, Iterable[Signal]] = No
 
                 if dx_an[Iout][Iin] is not None:
                     try:
-                        dgdx_an = np.real(dx_an[Iout][Iin][it.multi_index])
+                        idx = it.multi_index if sp_index is None else \
+                            (sp_index[0][it.index], sp_index[1][it.index])
+                        dgdx_an = np.real(dx_an[Iout][Iin][idx])
                     except (IndexError, TypeError):
                         dgdx_an = np.real(dx_an[Iout][Iin])
                 else:
@@ -251,7 +262,9 @@ def finite_difference(blk: Module, fromsig: Union[Signal, Iterable[Signal]] = No
 
                     if dx_an[Iout][Iin] is not None:
                         try:
-                            dgdx_an = np.imag(dx_an[Iout][Iin][it.multi_index])
+                            idx = it.multi_index if sp_index is None else \
+                                (sp_index[0][it.index], sp_index[1][it.index])
+                            dgdx_an = np.imag(dx_an[Iout][Iin][idx])
                         except IndexError:
                             dgdx_an = np.imag(dx_an[Iout][Iin])
                     else:
